@@ -165,7 +165,7 @@ def generate(ctx):
 def _group(c):
     """BycycleGroup.fit (possibly repeated on another array): models[i](/[j]) holds sigs[i](/[i, j]) and the table at the same position of df_features."""
     from bycycle import BycycleGroup
-    bg = implutil.quiet(BycycleGroup, center_extrema=c['center'], thresholds={'min_n_cycles': 2})
+    bg = implutil.quiet(BycycleGroup, center_extrema=c['center'], thresholds={'min_n_cycles': 2, 'amp_fraction_threshold': 0.25})      # (every *_threshold >= 0.25: a reduction is possible)
     for k, f in enumerate(c['fits']):
         shp = f['shape']
         sigs = np.zeros(tuple(shp) + (500,))
@@ -198,26 +198,61 @@ def _group(c):
             if m.df_features is not t and not m.df_features.equals(t): return 'fit %d: models%s.df_features is not df_features%s' % (k, list(idx), list(idx))
             if bg[idx[0]] is not bg.models[idx[0]]: return 'fit %d: indexing the group does not return its models' % k
             if (m.fs, tuple(m.f_range), m.center_extrema) != (250, (7.0, 13.0), c['center']): return 'fit %d: models%s does not carry the settings of the group' % (k, list(idx))
+    # a reduction is for ONE call: after a group recomputation with a reduction, a refit gives compute_features with the group's own thresholds again
+    if f['axis'] in ('0', 'a01') and len(c['fits'][-1]['shape']) == (1 if f['axis'] == '0' else 2) and c['seed'] % 3 == 0:
+        from bycycle.features import compute_features as _cf
+        try:
+            implutil.quiet(bg.recompute_edges, 0.125)
+        except Exception:
+            pass
+        try:
+            implutil.quiet(bg.fit, sigs, 250, (7.0, 13.0), axis=axis, n_jobs=1)
+        except Exception as e:
+            return 'refit after a group recompute_edges raised %s' % type(e).__name__
+        for idx in np.ndindex(*c['fits'][-1]['shape']):
+            t = bg.df_features[idx[0]] if len(idx) == 1 else bg.df_features[idx[0]][idx[1]]
+            exp = implutil.quiet(_cf, sigs[idx], 250, (7.0, 13.0), center_extrema=c['center'], threshold_kwargs={'min_n_cycles': 2, 'amp_fraction_threshold': 0.25})
+            if not t.equals(exp): return 'a refit after recompute_edges(0.125) is not compute_features with the group\'s thresholds at %s (thresholds now %r)' % (list(idx), bg.thresholds)
     # ... and still do after an edge recomputation of the whole group, in which every model uses ITS OWN thresholds: the first model gets looser
     # thresholds of its own and is refitted before
     from bycycle.burst import recompute_edges as rc_edges
     import copy as _copy
     shp = c['fits'][-1]['shape']
+    red = 0.125 if c['seed'] % 2 == 1 else None          # (half of the group recomputations with a reduction: every model lowers ITS OWN thresholds by it)
+    lower = lambda th: th if red is None else {k_: (v_ - red if k_.endswith('threshold') else v_) for k_, v_ in th.items()}
+    if not (f['axis'] in ('0', 'a01') or len(shp) == 1 and f['axis'] == '0'):
+        # epochs of a flattened analysis (2-D axis None, 3-D axis 0 / 1): the group recomputation works whatever containers the rows are, and models and
+        # df_features still mirror each other afterwards
+        get = (lambda idx: bg.models[idx[0]]) if len(shp) == 1 else (lambda idx: bg.models[idx[0]][idx[1]])
+        try:
+            before = {idx: (get(idx).df_features.copy(deep=True), _copy.deepcopy(get(idx).thresholds)) for idx in np.ndindex(*shp)}
+            implutil.quiet(bg.recompute_edges, red)
+        except Exception as e:
+            return 'group recompute_edges (axis %s) raised %s: %s' % (f['axis'], type(e).__name__, str(e)[:80])
+        for idx in np.ndindex(*shp):
+            t = bg.df_features[idx[0]] if len(shp) == 1 else bg.df_features[idx[0]][idx[1]]
+            if not get(idx).df_features.equals(t): return 'after the group recompute_edges (axis %s) models%s.df_features is no longer df_features%s' % (f['axis'], list(idx), list(idx))
+            try:
+                exp = implutil.quiet(rc_edges, before[idx][0], lower(before[idx][1]))
+            except Exception:
+                continue
+            if not t.equals(exp): return 'after the group recompute_edges (axis %s) the table at %s is not the edge recomputation of the table it held' % (f['axis'], list(idx))
+        return None
     if f['axis'] in ('0', 'a01') or len(shp) == 1 and f['axis'] == '0':
         get = (lambda idx: bg.models[idx[0]]) if len(shp) == 1 else (lambda idx: bg.models[idx[0]][idx[1]])
         first = tuple([0] * len(shp))
         m0 = get(first)
-        m0.thresholds = {'amp_fraction_threshold': 0.0, 'amp_consistency_threshold': 0.2, 'period_consistency_threshold': 0.2, 'monotonicity_threshold': 0.3, 'min_n_cycles': 2}
+        m0.thresholds = {'amp_fraction_threshold': 0.125, 'amp_consistency_threshold': 0.25, 'period_consistency_threshold': 0.25, 'monotonicity_threshold': 0.375, 'min_n_cycles': 2}
         try:
             implutil.quiet(m0.fit, m0.sig, 250, (7.0, 13.0))
             before = {idx: (get(idx).df_features.copy(deep=True), _copy.deepcopy(get(idx).thresholds)) for idx in np.ndindex(*shp)}
-            implutil.quiet(bg.recompute_edges)
+            implutil.quiet(bg.recompute_edges, red)
         except Exception as e:
             return 'group recompute_edges raised %s: %s' % (type(e).__name__, str(e)[:80])
         for idx in np.ndindex(*shp):
             t0, th0 = before[idx]
             try:
-                exp = implutil.quiet(rc_edges, t0, th0)
+                exp = implutil.quiet(rc_edges, t0, lower(th0))
             except Exception:
                 continue
             if not get(idx).df_features.equals(exp): return 'after the group recompute_edges models%s is not the edge recomputation of its table with ITS thresholds' % list(idx)
@@ -249,9 +284,9 @@ def _group(c):
                     r = e
             memo[key] = r
             return r
-        head = 'group.trace %s T [[min_n_cycles,2]] ' % proto.enc_bool(c['center'] == 'peak')
+        head = 'group.trace %s T [[min_n_cycles,2],[amp_fraction_threshold,1/4]] ' % proto.enc_bool(c['center'] == 'peak')
         ops = lambda flags: '[' + ','.join(['[[gfit,%s],[T]]' % proto.enc_ints(range(n)), '[[mrebind,0,%s],[T]]' % _kv(th_m0), '[[mfit,0,0],[T]]',
-                                            '[[gedges,None],[%s]]' % ','.join(proto.enc_bool(f_) for f_ in flags)]) + ']'
+                                            '[[gedges,%s],[%s]]' % ('None' if red is None else '1/8', ','.join(proto.enc_bool(f_) for f_ in flags))]) + ']'
         flags = [True] * n
         for _ in range(n + 1):
             tr = proto.run_driver([head + ops(flags)])[0]
@@ -422,6 +457,19 @@ def evaluate(ctx, cases):
                 obs.append((mop, outcome, snap()))
             if ok and op[0] in ('fit', 'edges', 'load'):
                 attr_check(repr(op))
+        if ok:
+            # whatever this object went through, a FRESHLY constructed default object starts from the documented defaults (nothing of the defaults is shared
+            # between objects) and its fit is compute_features with them
+            try:
+                fresh = implutil.quiet(Bycycle, burst_method=c['method'])
+                doc = ({'amp_fraction_threshold': 0., 'amp_consistency_threshold': .5, 'period_consistency_threshold': .5, 'monotonicity_threshold': .8, 'min_n_cycles': 3}
+                       if c['method'] == 'cycles' else {'burst_fraction_threshold': 1, 'min_n_cycles': 3})
+                if dict(fresh.thresholds) != doc or fresh.burst_kwargs != {} or fresh.find_extrema_kwargs != {'filter_kwargs': {'n_cycles': 3}} or fresh.center_extrema != 'peak':
+                    fail('a freshly constructed default object does not hold the documented defaults: %r / %r / %r' % (fresh.thresholds, fresh.burst_kwargs, fresh.find_extrema_kwargs))
+                elif fresh.thresholds is bm.thresholds or fresh.burst_kwargs is bm.burst_kwargs or fresh.find_extrema_kwargs is bm.find_extrema_kwargs:
+                    fail('a freshly constructed object shares an option dictionary with an earlier object')
+            except Exception as e:
+                fail('constructing a default object raised %s' % type(e).__name__)
         if ok:
             md = _model_trace(c_eff, obs, loaded, sigs, fs, fr, init_th=init_th)
             if md:
